@@ -70,6 +70,30 @@ struct K_w_force : WallsC { size_t i; colvarvalue const body() const
 struct K_w_dk : WallsC { size_t i; cvm::real body() const
 #include "walls_d_restraint_potential_dk.body.inc"
 };
+// ---- linear ----
+struct K_l_pot : RestraintF { size_t i; cvm::real body() const
+#include "linear_restraint_potential.body.inc"
+};
+struct K_l_force : RestraintF { size_t i; colvarvalue const body() const
+#include "linear_restraint_force.body.inc"
+};
+struct K_l_dk : RestraintF { size_t i; cvm::real body() const
+#include "linear_d_restraint_potential_dk.body.inc"
+};
+// ---- base class update: energy and forces of all variables ----
+#define CID_RPOT (CID_USER + 5)
+#define CID_RFORCE (CID_USER + 6)
+extern "C" void k_bias_update();
+struct K_r_update : RestraintF {
+  struct colvarbias { static int update() { k_bias_update(); return COLVARS_OK; } };
+  cvm::real restraint_potential(size_t i) const { return sreal_call(CID_RPOT, (int) i); }
+  colvarvalue const restraint_force(size_t i) const { colvarvalue r(sreal_call(CID_RFORCE, (int) i)); return r; }
+  int body()
+#include "restraint_update.body.inc"
+};
+struct K_uc : RestraintF { int body(cvm::real lambda)
+#include "update_centers.body.inc"
+};
 // ---- moving centres ----
 extern "C" int k_update_centers(int lambda_node);
 struct K_cm_update : RestraintF {
@@ -119,6 +143,38 @@ extern "C" double k_walls_d_restraint_potential_dk(size_t i, double force_k, dou
   double lw = 0.0, uw = 0.0; int has_lower = 1, has_upper = 1; bool bypass = false;
   K_w_dk f; SETUPW(f); RET_REAL(f.body()); }
 
+extern "C" double k_linear_restraint_potential(size_t i, double force_k, double width, double center) {
+  K_l_pot f; SETUP1(f); RET_REAL(f.body()); }
+extern "C" double k_linear_restraint_force(size_t i, double force_k, double width, double center) {
+  K_l_force f; SETUP1(f); RET_CVV(f.body()); }
+extern "C" double k_linear_d_restraint_potential_dk(size_t i, double force_k, double width, double center) {
+  K_l_dk f; SETUP1(f); RET_REAL(f.body()); }
+extern "C" { extern int g_un[12]; }
+// g_un: 0 energy in, 1 energy out, 2,3 forces out
+extern "C" int k_restraint_update() {
+  K_r_update f; colvar cvs[2]; colvar *cvp[2]; colvarvalue cfv[2];
+  for (int k = 0; k < 2; k++) { cvs[k].tag = k; cvp[k] = &cvs[k]; double b_ = nondet_double(); cfv[k] = colvarvalue(b_); }
+  CVS_VIEW(f.colvars, cvp, 2); CVS_VIEW(f.colvar_forces, cfv, 2);
+  for (int k = 0; k < f_cvb_ntot; k++) f.en_[k] = false;
+  double c_ = nondet_double(); f.bias_energy = cvm::real(c_); g_un[0] = f.bias_energy.id;
+  int r = f.body();
+  g_un[1] = f.bias_energy.nid(); g_un[2] = cfv[0].real_value.nid(); g_un[3] = cfv[1].real_value.nid();
+  return r;
+}
+// g_un: 4 lambda, 5,6 initial, 7,8 target, 9,10 old centres; out: g_uo 0,1 increments, 2,3 new centres
+extern "C" { extern int g_uo[4]; }
+extern "C" int k_update_centers_body() {
+  K_uc f; colvar cvs[2]; colvar *cvp[2]; colvarvalue ini[2], tgt[2], cen[2], inc[2];
+  for (int k = 0; k < 2; k++) { cvs[k].tag = k; cvp[k] = &cvs[k];
+    double a_ = nondet_double(), b_ = nondet_double(), c_ = nondet_double(); ini[k] = colvarvalue(a_); tgt[k] = colvarvalue(b_); cen[k] = colvarvalue(c_);
+    g_un[5 + k] = ini[k].real_value.id; g_un[7 + k] = tgt[k].real_value.id; g_un[9 + k] = cen[k].real_value.id; }
+  CVS_VIEW(f.colvars, cvp, 2); CVS_VIEW(f.initial_centers, ini, 2); CVS_VIEW(f.target_centers, tgt, 2); CVS_VIEW(f.colvar_centers, cen, 2); CVS_VIEW(f.centers_incr, inc, 2);
+  for (int k = 0; k < f_cvb_ntot; k++) f.en_[k] = false;
+  double l_ = nondet_double(); cvm::real lambda(l_); g_un[4] = lambda.id;
+  int r = f.body(lambda);
+  g_uo[0] = inc[0].real_value.nid(); g_uo[1] = inc[1].real_value.nid(); g_uo[2] = cen[0].real_value.nid(); g_uo[3] = cen[1].real_value.nid();
+  return r;
+}
 // moving centres: stage in/out; centers_incr (2 variables) in/out as values
 extern "C" int k_centers_moving_update(int *stage, int target_nstages, CVS_STEP_T target_nsteps, CVS_STEP_T first_step, bool b_chg_centers, double *incr) {
   K_cm_update f; colvar cvs[2]; colvar *cvp[2]; colvarvalue inc[2];
